@@ -58,7 +58,8 @@ def many_ranks(rng, case: Dict[str, Any]) -> Dict[str, Any]:
 
 
 PRE_CALLS = ["temporal_breakdown", "kernel_breakdown", "idle_time", "comm_comp_overlap", "queue_length_series", "queue_length_summary",
-             "memory_bw_series", "memory_bw_summary", "launch_stats", "launch_stats_mem", "call_graph", "user_annotation_breakdown"]
+             "memory_bw_series", "memory_bw_summary", "launch_stats", "launch_stats_mem", "call_graph", "user_annotation_breakdown",
+             "critical_path_window", "critical_path_whole", "annotated_kernels", "blocked_on_queue", "profiler_steps"]
 
 
 def disturb(ta, pre) -> None:
@@ -98,6 +99,16 @@ def disturb(ta, pre) -> None:
                     CallGraph(ta.t, ranks=ta.t.get_ranks()[:1])
                 elif name == "user_annotation_breakdown":
                     ta.get_gpu_user_annotation_breakdown(visualize=False)
+                elif name == "critical_path_window":
+                    ta.critical_path_analysis(rank=ta.t.get_ranks()[0], annotation="ProfilerStep", instance_id=0)
+                elif name == "critical_path_whole":
+                    ta.critical_path_analysis(rank=ta.t.get_ranks()[0], annotation="", instance_id=None)
+                elif name == "annotated_kernels":
+                    ta.get_gpu_kernels_with_user_annotations(ta.t.get_ranks()[0])
+                elif name == "blocked_on_queue":
+                    ta.get_time_spent_blocked_on_full_queue(ta.get_queue_length_time_series(), max_queue_length=2)
+                elif name == "profiler_steps":
+                    ta.get_profiler_steps()
         except Exception:  # noqa: BLE001
             pass
 
